@@ -1,6 +1,7 @@
 //! Correspondence / monitor harness for the ggrs verification framework.
 //! Every sub-command reads an operation script on stdin and prints one result line per op.
 mod alloc;
+mod builder;
 mod codec;
 mod sim;
 mod util;
@@ -14,6 +15,7 @@ fn main() {
     let level = args.get(1).map(String::as_str).unwrap_or("");
     match level {
         "codec" => codec::run(),
+        "builder" => builder::run(),
         "sim" => sim::run(),
         "profile" => println!("{}", if cfg!(debug_assertions) { "debug" } else { "release" }),
         _ => {
